@@ -321,6 +321,15 @@ Proof.
   split; [reflexivity|]. split; [eexists; split; reflexivity|]. repeat split.
 Qed.
 
+(* the read-ahead of a parallel stage is bounded by the reorder buffer only, not by the worker count: worker 0 holds
+   element 1 (= nextOut), worker 1 runs through the whole source; the consumer has been given nothing new, 7 results wait *)
+Example read_ahead_exceeds_worker_count :
+  let f := fun (_ : nat) (x : nat) => ROk x : res nat in
+  let s := ParMap.run f log_yield (par_init 1 2 [ROk 1; ROk 2; ROk 3; ROk 4; ROk 5; ROk 6; ROk 7; ROk 8] [ROk 0])
+             [Feed 0; Feed 1; Deliver 1; Feed 1; Deliver 1; Feed 1; Deliver 1; Feed 1; Deliver 1; Feed 1; Deliver 1; Feed 1; Deliver 1; Feed 1; Deliver 1] in
+  cst (col s) = [ROk 0] /\ nextOut (col s) = 1 /\ nexti s = 9 /\ src s = [] /\ length (buffer (col s)) = 7.
+Proof. vm_compute. repeat split. Qed.
+
 (* non-vacuity: 3 workers, 5 items from index 12, item 14 fails; results arrive as 13,12,14,16,15; complete *)
 Example par_map_nonvacuous :
   let f := fun (_ : nat) (x : nat) => if Nat.eqb x 7 then RErr else ROk (x * 2) in
